@@ -217,6 +217,9 @@ def run(rep, tier, seed):
         rep.sample(hl[len(hl) // 2])
         n = tot["nlines"] + len(hl)
         judge.judge(rep, "Trace_TraitSet", "Trace_TraitSet", "Trace_TraitSet.cfg", trace, n, sig_of=sig_of)
+        from .. import suite_phase
+        ns = suite_phase.run(rep, "C07", "set", tier, sig_of=lambda rec, cl: sig_of(rec, cl).replace("C07:judge:", "C07:suite:"))
+        rep.notes.append("%d TraitSet operations recorded while the repository's own tests ran were judged by the same judge" % ns)
         rep.rule = ("every (set, validator, operation, argument sets) state enumerated by TLC from TraitSetMC executed on "
                     "a real TraitSet and on a builtin set (copy/deepcopy/pickle followed by a validating add on the copy), "
                     "plus %d seeded history steps; every record judged by TLC" % len(hl))
